@@ -114,6 +114,9 @@ def _val(c, ty):
     return T("const", "opaque", ty)
 
 
+MODEL_MUT_PARAMS = True
+
+
 class Site:
     __slots__ = ("bb", "term", "callee", "args", "value", "arg_tys", "span", "fn", "mut_effects", "raw", "alt_callees")
 
@@ -285,7 +288,10 @@ class Eval:
     def value_of(self, t, st):
         """Convert frame pointers to value-level refs when a term escapes."""
         if t.op == "addr":
-            return mk_ref(self._read_loc((t.a[0], t.a[1]), st))
+            v = self._read_loc((t.a[0], t.a[1]), st)
+            if v.op in ("addr", "mref"):
+                v = self.value_of(v, st)  # a pointer to a pointer (`&mut rng` where rng is itself `&mut outer`)
+            return mk_ref(v)
         if t.op == "mref":
             return self._mref_value(t, st)
         if t.op == "agg":
@@ -375,6 +381,10 @@ class Eval:
         headers = {}
         for src, h in back:
             headers.setdefault(h, set()).update(cfg.natural_loop(src, h))
+        # `&mut T` parameters point to a synthetic location that starts as `*param`: writes through the parameter (and
+        # through reborrows handed to calls) are then seen by later reads, like writes to a local
+        mut_params = [i for i in range(1, fn.arg_count + 1) if str(fn.locals[i]["ty"]).startswith("&mut ")] if MODEL_MUT_PARAMS else []
+        self.mut_params = mut_params
         # locals assigned inside each loop
         loop_defs = {}
         for h, body in headers.items():
@@ -395,6 +405,8 @@ class Eval:
                 if t["k"] == "call":
                     d = t["dest"]
                     defs.add(d["l"])
+            if mut_params and self._loop_touches_pointees(body):
+                defs.update(self._pm(i) for i in mut_params)
             loop_defs[h] = defs
         exit_state = {}
         ret_vals = []
@@ -404,6 +416,9 @@ class Eval:
                 continue  # unreachable under the assumption
             if b == 0 and not preds:
                 st = {}
+                for i in mut_params:
+                    st[self._pm(i)] = mk_deref(T("param", i, self.pname(i)))
+                    st[i] = T("addr", self._pm(i), ())
             else:
                 if not preds:
                     st = {}
@@ -439,10 +454,8 @@ class Eval:
                 rv = self.value_of(st.get(0, UNDEF), st)
                 self.ret_at[b] = rv
                 ret_vals.append(rv)
-                for i in range(1, fn.arg_count + 1):
-                    ty = fn.locals[i]["ty"]
-                    if ty.startswith("&mut "):
-                        pass
+                for i in mut_params:
+                    self.param_effects.setdefault(i, []).append(st.get(self._pm(i), UNDEF))
         self.ret = mk_phi(ret_vals) if ret_vals else UNDEF
         # loop steps
         for src, h in back:
@@ -454,6 +467,25 @@ class Eval:
                         self.loop_step[key] = mk_phi([self.loop_step[key], v])
                     else:
                         self.loop_step[key] = v
+
+    def _pm(self, i):
+        return 100000 + i
+
+    def _loop_touches_pointees(self, body):
+        fn = self.fn
+        for b in body:
+            blk = fn.blocks[b]
+            for s_ in blk["stmts"]:
+                if s_["k"] == "assign":
+                    if "*" in [p for p in s_["place"].get("p", []) if isinstance(p, str)]:
+                        return True
+                    rv = s_["rv"]
+                    if ("ref" in rv and rv.get("mut")) or "rawptr" in rv:
+                        return True
+            t = blk["term"]
+            if t["k"] == "call" and any(str(ty).startswith("&mut ") for ty in t.get("arg_tys", [])):
+                return True
+        return False
 
     def _unit_variant(self, y):
         """(adt, variant name) of a field-less enum value written as a constant / aggregate, else None."""
